@@ -125,6 +125,13 @@ func flowScn(g *Gen, mix flowMix) *Flow {
 		s.nonces = append(s.nonces, types.Nonce{SourceDomain: uint32(p[0]), Nonce: p[1]})
 		f.used[p] = true
 	}
+	if g.r.Chance(1, 10) {
+		// a long past: more than a hundred messages already received (beyond any default page size)
+		for i, k := 0, 101+g.r.Intn(30); i < k; i++ {
+			s.nonces = append(s.nonces, types.Nonce{SourceDomain: uint32(7 + i%3), Nonce: uint64(5000 + i)})
+		}
+		g.stats.Mut("many-used-nonces")
+	}
 	return f
 }
 
@@ -247,6 +254,13 @@ func (f *Flow) Deposit() {
 		g.stats.Mut("dep-caller-one-byte")
 	}
 	plan := f.plan()
+	if tok != "uusdc" && strings.EqualFold(tok, "uusdc") && g.r.Chance(3, 4) {
+		// a case variant of the minting denom passes the module's own check (EqualFold); only the bank and the factory
+		// would stop it.  With a permissive ledger the deposit goes through and the emitted burn token, limit lookup and
+		// events for a mixed-case denom become observable.
+		plan = "ss"
+		g.stats.Mut("dep-token-case-permissive")
+	}
 	if withCaller {
 		g.tx("DepositForBurnWithCaller", from, fmt.Sprintf("amount=%s dest=%d mint_recipient=%x burn_token=%x caller=%x", amt, dest, mr, tok, caller), plan)
 	} else {
